@@ -113,8 +113,8 @@ def run(ctx):
         f0 = {k: None for k in ci.fields}
         f0[stored] = np.zeros((7, 3)) if name in ("atcoords", "atgradient") else np.zeros(7)
         try:
-            if _AEval(prog, ci).get(_ARec(ci, **f0), "natom") == 7:
-                consulted.add(name)
+            if _AEval(prog, ci).get(_ARec(ci, **f0), "natom") is not None:
+                consulted.add(name)  # (any answer: an array natom derives a count from, whatever the arithmetic)
         except _ARaised:
             pass
         except _NotSym as exc:
